@@ -16,7 +16,7 @@ Driver handler `ctl` (C03):
     ctl loop <len> <index> <nvals>  LoopContext: `index first last even odd reverse_index cycle-index|none`
     ctl decl <el> <name>*         lines of write_variable_declares for plain names
 
-    CT    ::= nil | c CT | s <line> <loopRef> <n> K* CT | b <text> <loopRef> CT | q <loopRef> <n> K* CT
+    CT    ::= nil | c CT | s <line> <loopRef> <n> K* CT | b <text> <loopRef> (0 | 1 <names>) CT | q <loopRef> <n> K* CT
             | ctl HDR CT TERNS CT
     TERNS ::= tn | tc HDR CT TERNS
     HDR   ::= <kw> <text> <loopRef> (0 | 1 <target> <iter>)
@@ -97,8 +97,14 @@ def pCT : Nat → P CT
     | "b" :: r => do
       let (text, r) ← pStr r
       let (lr, r) ← pBool r
+      let (st, r) ← pBool r
+      if st then
+        let (names, r) ← pStr r
+        let (rest, r) ← pCT fuel r
+        pure (.leaf (.block text lr (some names)) rest, r)
+      else
       let (rest, r) ← pCT fuel r
-      pure (.leaf (.block text lr) rest, r)
+      pure (.leaf (.block text lr none) rest, r)
     | "q" :: r => do
       let (lr, r) ← pBool r
       let (n, r) ← pNat r
